@@ -581,6 +581,15 @@ impl From<Vec<OrderedFloat<f64>>> for DataSection {
     }
 }
 
+/// `Add` and `ToI64` only transform the values: a null map attached to their input by a preceding `Nullable` is kept.
+fn keep_null_map<'a>(input: &dyn Data<'a>, mut decoded: BoxedData<'a>) -> BoxedData<'a> {
+    if input.get_type().is_nullable() {
+        decoded.make_nullable(input.cast_ref_null_map())
+    } else {
+        decoded
+    }
+}
+
 fn decode<'a>(codec: &Codec, sections: &[&'a dyn Data<'a>]) -> BoxedData<'a> {
     let mut section_stack: Vec<BoxedData<'a>> = vec![sections[0].slice_box(0, sections[0].len())];
     for codec_op in codec.ops() {
@@ -591,7 +600,7 @@ fn decode<'a>(codec: &Codec, sections: &[&'a dyn Data<'a>]) -> BoxedData<'a> {
                 let mut data = section_stack.pop().unwrap();
                 data.make_nullable(present.cast_ref_u8())
             }
-            CodecOp::Add(encoding_type, value) => match encoding_type {
+            CodecOp::Add(encoding_type, value) => keep_null_map(&**arg0, match encoding_type {
                 EncodingType::U8 => Box::new(
                     arg0.cast_ref_u8()
                         .iter()
@@ -614,7 +623,7 @@ fn decode<'a>(codec: &Codec, sections: &[&'a dyn Data<'a>]) -> BoxedData<'a> {
                     "Unsupported encoding type for CodecOp::Add: {:?}",
                     encoding_type
                 ),
-            },
+            }),
             CodecOp::Delta(encoding_type) => match encoding_type {
                 EncodingType::U8 => {
                     let mut decoded = Vec::with_capacity(arg0.len());
@@ -661,7 +670,7 @@ fn decode<'a>(codec: &Codec, sections: &[&'a dyn Data<'a>]) -> BoxedData<'a> {
                     encoding_type
                 ),
             },
-            CodecOp::ToI64(encoding_type) => match encoding_type {
+            CodecOp::ToI64(encoding_type) => keep_null_map(&**arg0, match encoding_type {
                 EncodingType::U8 => Box::new(
                     arg0.cast_ref_u8()
                         .iter()
@@ -684,7 +693,7 @@ fn decode<'a>(codec: &Codec, sections: &[&'a dyn Data<'a>]) -> BoxedData<'a> {
                     "Unsupported encoding type for CodecOp::ToI64: {:?}",
                     encoding_type
                 ),
-            },
+            }),
             CodecOp::PushDataSection(index) => {
                 let data_section = sections[*index].slice_box(0, sections[*index].len());
                 section_stack.push(data_section);
